@@ -151,10 +151,16 @@ def run(ctx):
         ctx.violation("R7.1", k2, "%s (chart types: %s)" % (msg, ", ".join(sorted(set(members)))), file=xml.file, line=xml.line)
     ctx.count("chart_template_elements", nelem)
 
+    # the writer classes: those of the chart-writer module and of the chart modules it takes definitions from (a writer family
+    # moved to a module of its own is still part of the writers)
+    wmods = [xm] + [prog.modules[i_[1]] for i_ in xm.imports.values() if i_[0] == "attr" and i_[1].startswith("pptx.chart.")
+                    and i_[1] in prog.modules and prog.modules[i_[1]] is not xm]
+    wmods = list({id(m_): m_ for m_ in wmods}.values())
+    writer_classes = [c_ for m_ in wmods for c_ in dict.values(m_.classes)]
     # -- R7.2 ------------------------------------------------------------------------------------
     ctx.rule("R7.2", "element twin and *_xml twin of each series-writer property evaluate to the same skeleton")
     ntw = 0
-    for c in xm.classes.values():
+    for c in writer_classes:
         for name, f in sorted(c.methods.items()):
             if name.endswith("_xml") and f.kind == "property" and name[:-4] in c.methods \
                     and c.methods[name[:-4]].kind == "property":
@@ -190,7 +196,7 @@ def run(ctx):
     from sa.inline import expand as _exp73, with_self_class as _wsc73
 
     rw_base = xm.classes.get("_BaseSeriesXmlRewriter")
-    for c in xm.classes.values():
+    for c in writer_classes:
         # every concrete rewriter, with the method it runs (its own or the base's template method specialised to its tables / hooks)
         if rw_base is None or rw_base not in prog.mro(c):
             continue
@@ -364,7 +370,7 @@ def run(ctx):
     got = set()
     from sa.inline import walk_expanded
 
-    for n, _owner in walk_expanded(prog, f, depth=2):
+    for n, _owner in walk_expanded(prog, f, depth=2, by_name=True):
         if isinstance(n, ast.Assign) and isinstance(n.targets[0], ast.Attribute) and n.targets[0].attr == "val" \
                 and isinstance(n.targets[0].value, ast.Attribute) and isinstance(n.value, ast.Attribute):
             got.add((n.targets[0].value.attr, n.value.attr))
